@@ -10,6 +10,8 @@ SPECIALS = {
     "C-^": "<Ctrl-6>",
     "C-_": "<Ctrl-/>",
 }
+# the decoder calls ESC followed by a space <Esc+SPACE>
+ESC_NAMES = {" ": "SPACE"}
 
 
 # TODO make a precalculated version of this
@@ -19,13 +21,16 @@ class KeyMap:
     def __getitem__(self, key: str) -> Tuple[str, ...]:
         if not key:  # Unbound key
             return ()
-        elif key in SPECIALS:
+        if len(key) == 3 and key[:2] == "C-" and "A" <= key[2] <= "Z":
+            # Ctrl-Shift-a sends the byte Ctrl-a sends, named <Ctrl-a>
+            key = key[:2] + key[2].lower()
+        if key in SPECIALS:
             return (SPECIALS[key],)
         elif key[1:] and key[:2] == "C-":
             return ("<Ctrl-%s>" % key[2:],)
         elif key[1:] and key[:2] == "M-":
             return (
-                "<Esc+%s>" % key[2:],
+                "<Esc+%s>" % ESC_NAMES.get(key[2:], key[2:]),
                 "<Meta-%s>" % key[2:],
             )
         elif key[0] == "F" and key[1:].isdigit():
